@@ -231,3 +231,7 @@ def run(P, C, tier):
         C.floor("R3", "add_room sites in the actor", n, 3)
     except mir.MissingAnchor as e:
         C.anchor_missing("R3", "process_message", e)
+
+    # ---- R4 (shared with C16-R3): the definition that is announced is the one computed at commit time
+    from rules import c16
+    c16.r3_room_definitions(P, C, "R4")
